@@ -37,7 +37,8 @@ EXPLANATION = (
     "yield exactly the specified upstream URL. (Y3) no quote/unquote/lower/encode on path or "
     "query. (Y4) exactly one self._client.get with follow_redirects=False; the client is built "
     "once in __init__. (Y5) locations are registered in order as PREFIX routes; Router.route "
-    "returns at the first match."
+    "returns at the first match. "
+    "(Y3, accessor) The request accessors the proxy reads path and query through return the raw, still percent-escaped components."
 )
 
 PROXY = "server.proxy:ProxyHandler"
